@@ -248,6 +248,9 @@ def handleLine (toks : List String) : String :=
   | "xserve" :: ts => runXServe ts
   | "life" :: ts => runLifeCase ts
   | "race" :: _ => racePrediction
+  -- a connection blocked in a write is its own goroutine's business: every other connection is served
+  -- (`connStep_static`, `C08_per_connection`); blocking itself is runtime behaviour outside the model
+  | "stallw" :: _ => "witness-served"
   | "linhist" :: ts =>
     let ops : List (Lin.Op Bytes Bytes) := ts.filterMap fun t =>
       match t.splitOn ":" with
